@@ -117,3 +117,99 @@ pub fn run(args: &[String]) -> i32 {
                "config": case["config"], "out": {"k": "panic", "msg": format!("process died: {status}")}})
     })
 }
+
+/// CLI route (standalone mode): the same cases, batched into projects of `batch` cases; each case's
+/// files live under ops/c<i>/...; the `.graphql.ts` written for the case's root file is read back
+/// (TS-subset reader -> const initialisers -> graphql-js reader).
+/// opfile-cli <cli> <cases> <events> <scratch> <schema-file>
+pub fn run_cli(args: &[String]) -> i32 {
+    let cli = &args[0];
+    let cases = read_ndjson(&args[1]);
+    let mut out = Out::create(&args[2]);
+    let scratch = std::path::PathBuf::from(&args[3]);
+    let schema = std::fs::read_to_string(&args[4]).unwrap();
+    let config = "schema: ./schema.graphql\ndocuments: ./ops/**/*.graphql\nextensions:\n  nitrogql:\n    generate:\n      mode: standalone-ts-4.0\n      schemaOutput: ./gen/schema.d.ts\n";
+    let batch = 100usize;
+    let chunks: Vec<(usize, Vec<Value>)> = cases.chunks(batch).map(|c| c.to_vec()).enumerate().collect();
+    let results: std::sync::Mutex<Vec<(usize, Vec<Value>)>> = std::sync::Mutex::new(vec![]);
+    let next = std::sync::Mutex::new(0usize);
+    std::thread::scope(|sc| {
+        for _ in 0..10 {
+            sc.spawn(|| loop {
+                let k = {
+                    let mut n = next.lock().unwrap();
+                    let k = *n;
+                    *n += 1;
+                    k
+                };
+                if k >= chunks.len() {
+                    break;
+                }
+                let (b, chunk) = &chunks[k];
+                let evs = cli_batch(cli, *b, chunk, &scratch, &schema, config);
+                results.lock().unwrap().push((*b, evs));
+            });
+        }
+    });
+    let mut results = results.into_inner().unwrap();
+    results.sort_by_key(|(b, _)| *b);
+    for (_, evs) in results {
+        for e in evs {
+            out.emit(&e);
+        }
+    }
+    0
+}
+
+fn cli_batch(cli: &str, b: usize, chunk: &[Value], scratch: &std::path::Path, schema: &str, config: &str) -> Vec<Value> {
+    use crate::cli::run_project;
+    use crate::gqljs::read_document;
+    use crate::tsread::read_ts;
+    let mut events = vec![];
+    {
+        let mut files: Vec<(String, String)> = vec![("graphql.config.yaml".into(), config.into()), ("schema.graphql".into(), schema.to_string())];
+        for (i, c) in chunk.iter().enumerate() {
+            for f in c["files"].as_array().unwrap() {
+                files.push((format!("ops/c{i}/{}", strs(&f["path"]).join("/")), render_op_doc(&f["doc"]).0));
+            }
+        }
+        let dir = scratch.join(format!("b{b}"));
+        let run = run_project(cli, &dir, &files, &["--output-format".into(), "json".into(), "generate".into()], 120);
+        let written = run.written();
+        for (i, c) in chunk.iter().enumerate() {
+            let root_rel = format!("ops/c{i}/{}", strs(&c["root"]).join("/"));
+            let ts = format!("{}.graphql.ts", root_rel.strip_suffix(".graphql").unwrap_or(&root_rel));
+            let o = if run.panicked() {
+                json!({"k": "panic", "msg": run.stderr.chars().take(300).collect::<String>()})
+            } else if run.exit != 0 {
+                json!({"k": "err", "msg": run.stdout.chars().take(600).collect::<String>()})
+            } else {
+                match written.get(&ts) {
+                    None => json!({"k": "malformed", "why": format!("{ts} not written")}),
+                    Some(text) => match read_ts(text) {
+                        Err(w) => json!({"k": "malformed", "why": w}),
+                        Ok(ast) => {
+                            let mut consts = vec![];
+                            let mut bad = None;
+                            for s in ast["stmts"].as_array().unwrap() {
+                                if s["k"] == "const" && s["hasInit"].as_bool().unwrap() {
+                                    match read_document(&s["init"]) {
+                                        Ok(d) => consts.push(json!({"name": s["name"], "exported": s["export"], "doc": d})),
+                                        Err(w) => bad = Some(w),
+                                    }
+                                }
+                            }
+                            match bad {
+                                Some(w) => json!({"k": "malformed", "why": w}),
+                                None => json!({"k": "ok", "consts": consts}),
+                            }
+                        }
+                    },
+                }
+            };
+            events.push(json!({"ev": "RuntimeDocs", "route": "cli", "files": c["files"], "root": c["root"], "config": "", "out": o}));
+        }
+        let _ = std::fs::remove_dir_all(&dir);
+    }
+    events
+}
